@@ -122,6 +122,10 @@ pub fn harness<R>(f: impl FnOnce() -> R) -> R {
 }
 
 /// Number of table allocations attributed so far (monotone).
+/// Inside a subject call (an attribution window) and not inside a harness guard.
+pub fn in_subject() -> bool {
+    WINDOW.with(|w| w.get()) > 0 && HARNESS.with(|h| h.get()) == 0
+}
 pub fn allocs() -> u64 {
     N_ALLOC.with(|c| c.get())
 }
